@@ -175,3 +175,36 @@ mut("C08", "R08.5", "lookahead-index-constant", RT + "parser/lookahead_dfa.rs",
     "            let current_lookahead_token = token_stream.lookahead_token_type(i)?;", "            let current_lookahead_token = token_stream.lookahead_token_type(i.min(1))?;")
 mut("C01", "R01.6", "all-input-consumed-negated", RT + "lexer/token_stream.rs",
     "            Some(token) => token.token_type == super::EOI,", "            Some(token) => token.token_type != super::EOI || token.text().is_empty(),")
+# ---- rules added after the first selftest round
+mut("C09", "R09.0", "single-pass-name-scan", PA + "utils/mod.rs",
+    "        while exclusions.clone().any(|n| n.as_ref() == new_name) {\n            num += 1;\n            new_name = format!(\"{prefix}{num}\");\n        }",
+    "        for n in exclusions.clone() {\n            if n.as_ref() == new_name {\n                num += 1;\n                new_name = format!(\"{prefix}{num}\");\n            }\n        }")
+mut("C33", "R33.0", "preferred-name-unchecked", PA + "utils/mod.rs",
+    "    if exclusions.clone().any(|n| n.as_ref() == preferred_name) {", "    if exclusions.clone().skip(1).any(|n| n.as_ref() == preferred_name) {")
+mut("C10", "R10.3", "zip-prefix-test", PA + "transformation/left_factoring.rs",
+    "            if pr.len() < prefix_len || pr.get_r()[0..prefix_len] != prefix[..] {",
+    "            if pr.get_r().iter().zip(prefix).any(|(s, p)| s != p) {")
+mut("C10", "R10.4", "cut-at-constant", PA + "transformation/left_factoring.rs",
+    "                let rhs = rhs.split_off(prefix_len);", "                let rhs = rhs.split_off(1);")
+mut("C12", "R12.1", "scan-start-productions-only", PA + "transformation/lr_augmentation.rs",
+    "    let start_symbol_is_used_on_rhs = cfg.pr.iter().any(|p| {",
+    "    let start_symbol_is_used_on_rhs = cfg.pr.iter().filter(|p| p.get_n_str() == cfg.st).any(|p| {")
+mut("C19", "R19.4", "unguarded-refill", RT + "lexer/token_stream.rs",
+    "        let fill_len = self.tokens.len();\n        if fill_len < self.k {",
+    "        let fill_len = self.tokens.len();\n        if fill_len != self.k {")
+mut("C33", "R33.5", "raw-prefix-for-all-keywords", PA + "generators/naming_helper.rs",
+    "        if NON_RAW_KEYWORDS.contains(&name.as_str()) {", "        if false && NON_RAW_KEYWORDS.contains(&name.as_str()) {")
+mut("C33", "R33.5", "keyword-dropped", PA + "generators/naming_helper.rs",
+    "\"typeof\", \"union\",", "\"union\",")
+mut("C33", "R33.5", "camel-case-unescaped", PA + "generators/naming_helper.rs",
+    "        // `Self` is the only rust keyword that starts with an uppercase letter\n        Self::escape_rust_keyword(result)",
+    "        result")
+mut("C33", "R33.4", "punctuation-name-not-identifier", PA + "generators/terminal_name_generator.rs",
+    "\"Plus\"", "\"Plus+\"")
+mut("C09", "R09.3", "single-group-drops-siblings", PA + "transformation/canonicalization.rs",
+    "                let mut production1 = production.clone();\n                production1.rhs.0[alt_index].0.remove(grp_index_in_alt);",
+    "                let mut production1 = production.clone();\n                production1.rhs.0.truncate(alt_index + 1);\n                production1.rhs.0[alt_index].0.remove(grp_index_in_alt);")
+mut("C11", "R11.4", "flag-overwritten", PA + "analysis/left_recursion.rs",
+    "            changed |= v.len() < ", "            changed = v.len() < ")
+mut("C14", "R14.5", "end-column-from-start", RT + "lexer/token_iter.rs",
+    ".end_column(positions.end_position.column as u32)", ".end_column(positions.start_position.column as u32)")
